@@ -1,3 +1,5 @@
+\* negative variant: a compensation records its starting point as the value reset() returns to.
+\* TLC must report EndStateNominal violated (by a what-if history: two compensations without a reset).
 SPECIFICATION Spec
 CONSTANTS
   Values <- MCValues
@@ -8,18 +10,13 @@ CONSTANTS
   ScalarVal = 2
   NTrials = 2
   Streams <- NoStream
-  WithComp = FALSE
-  CompFns <- OneCompFn
+  WithComp = TRUE
+  CompFns <- MCCompFns
   FailSets <- MCFailSets
   TrialReset = TRUE
   FinalReset = TRUE
-  CompRebases = FALSE
-  MaxUser = 0
+  CompRebases = TRUE
+  MaxUser = 4
 INVARIANT TypeOK
-INVARIANT RowsTrue
-INVARIANT NominalReproduced
-INVARIANT Reproducible
 INVARIANT EndStateNominal
-INVARIANT HandlesNominal
-PROPERTY ResetRestores
 CHECK_DEADLOCK FALSE
